@@ -148,6 +148,12 @@ func CorpusGen() error {
 		add(kz.Cfg{Transform: lc[0], Entropy: lc[1], BlockSize: 32768, Jobs: 1, Checksum: []uint{0, 32, 64}[i%3], Hint: -1}, []string{"text", "cjk", "elfx86", "wav", "dna"}[i%5], 60000)
 	}
 	// small blocks, tiny inputs, empty input, headerless
+	// alphabets of exactly k symbols: group boundaries in the frequency / code-length headers of the static coders
+	for _, e := range []string{"ANS0", "ANS1", "RANGE", "HUFFMAN"} {
+		for _, k := range []int{1, 2, 6, 7, 63, 64, 65, 128, 255, 256} {
+			add(kz.Cfg{Transform: "NONE", Entropy: e, BlockSize: 1024, Jobs: 1, Checksum: 32}, fmt.Sprintf("alpha:%d", k), 2500)
+		}
+	}
 	// long runs / long distances: the multi-byte length and offset forms of RLT, ZRLT, LZ, ROLZ
 	for i, t := range []string{"RLT", "ZRLT", "RLT+ZRLT", "LZ", "LZX", "LZP", "ROLZ", "ROLZX", "BWT+RANK+ZRLT", "TEXT+RLT", "SRT", "MTFT"} {
 		add(kz.Cfg{Transform: t, Entropy: []string{"NONE", "HUFFMAN", "ANS0"}[i%3], BlockSize: 1 << 20, Jobs: 1, Checksum: []uint{32, 0, 64}[i%3]}, "longruns", 500000)
@@ -327,7 +333,7 @@ func c10(run *core.Run, replay string) {
 			hint = -1
 		}
 		cases = append(cases, &fmtCase{Cfg: kz.Cfg{Transform: t, Entropy: e, BlockSize: bs, Jobs: 1, Checksum: []uint{0, 32, 64}[r.Intn(3)], Hint: hint, Headerless: r.Intn(8) == 0},
-			Shape: gen.Shapes[r.Intn(len(gen.Shapes))], Size: size, Seed: int64(r.Intn(1 << 30)), DecJ: uint(1 + r.Intn(4))})
+			Shape: pickShape(r), Size: size, Seed: int64(r.Intn(1 << 30)), DecJ: uint(1 + r.Intn(4))})
 	}
 	if run.Thorough() {
 		for _, t := range []string{"BWT", "BWTS", "LZ", "ROLZ", "TEXT"} {
@@ -365,3 +371,11 @@ func c10(run *core.Run, replay string) {
 }
 
 func init() { register("C10", "exploration", c10) }
+
+// pickShape draws a data shape, one time in six an exact-alphabet-size one
+func pickShape(r *core.Rng) string {
+	if r.Intn(6) == 0 {
+		return fmt.Sprintf("alpha:%d", []int{1, 2, 6, 7, 8, 9, 16, 32, 63, 64, 65, 128, 255, 256}[r.Intn(14)])
+	}
+	return gen.Shapes[r.Intn(len(gen.Shapes))]
+}
